@@ -94,6 +94,7 @@ struct Writer {
     out: std::io::BufWriter<std::fs::File>,
     meta: std::io::BufWriter<std::fs::File>,
     origin: u64,
+    pre_streams: u64,
     runs: u64,
     events: u64,
 }
@@ -103,7 +104,7 @@ impl Writer {
         let r = &out.result;
         let finals: Vec<Value> = r.finals.iter().map(|(n, s, p)| json!({"name": n, "status": format!("{:?}", s), "pending": p})).collect();
         let reset = json!({"k":"reset","t":-1,"fn":"","fld":"","o":"","a":0,"b":0,"r":0,"ok":true,"obj":0,
-                           "x": {"scn": scn_id, "run": run_no, "origin": self.origin % crate::sched::LOG_MOD, "outcome": outcome_name(&r.outcome)}});
+                           "x": {"scn": scn_id, "run": run_no, "origin": self.origin % crate::sched::LOG_MOD, "outcome": outcome_name(&r.outcome), "streams": self.pre_streams}});
         writeln!(self.out, "{}", reset).unwrap();
         // side-car with what is needed to replay / explain the run (not read by TLC)
         let meta = json!({"scn": scn_id, "run": run_no, "line": self.events + 1, "outcome": outcome_name(&r.outcome), "choices": r.choices,
@@ -122,6 +123,7 @@ impl Writer {
 fn explore(scn: &Value, w: &mut Writer, summary: &mut Vec<Value>) {
     let scn_id = scn["id"].as_str().unwrap_or("scn").to_string();
     w.origin = scn["origin"].as_u64().unwrap_or(0);
+    w.pre_streams = scn["pre_streams"].as_array().map(|a| a.len() as u64).unwrap_or(0);
     let ex = &scn["explore"];
     let mode = ex["mode"].as_str().unwrap_or("dfs");
     let record_ops = scn["record_ops"].as_bool().unwrap_or(true);
@@ -231,7 +233,7 @@ fn main() {
             let input = std::fs::File::open(&args[2]).expect("scenarios file");
             let out = std::fs::File::create(&args[3]).expect("trace file");
             let meta = std::fs::File::create(format!("{}.runs", &args[3])).expect("runs file");
-            let mut w = Writer { out: std::io::BufWriter::new(out), meta: std::io::BufWriter::new(meta), origin: 0, runs: 0, events: 0 };
+            let mut w = Writer { out: std::io::BufWriter::new(out), meta: std::io::BufWriter::new(meta), origin: 0, pre_streams: 0, runs: 0, events: 0 };
             let mut summary = vec![];
             for line in std::io::BufReader::new(input).lines() {
                 let line = line.unwrap();
